@@ -88,8 +88,11 @@ func (c *HeartbeatManager) StartHeartbeat() error {
 		return err
 	}
 
+	c.stopMux.Lock()
+	defer c.stopMux.Unlock()
+
 	// stop an already running heartbeat
-	c.StopHeartbeat()
+	c.stopHeartbeat()
 
 	c.stopHeartbeatC = make(chan struct{})
 
@@ -101,7 +104,15 @@ func (c *HeartbeatManager) StartHeartbeat() error {
 // Stop updating heartbeat data
 // Note: No active subscribers will get any further notifications!
 func (c *HeartbeatManager) StopHeartbeat() {
-	if c.IsHeartbeatRunning() {
+	c.stopMux.Lock()
+	defer c.stopMux.Unlock()
+
+	c.stopHeartbeat()
+}
+
+// stopMux has to be held by the caller
+func (c *HeartbeatManager) stopHeartbeat() {
+	if c.stopHeartbeatC != nil && !c.isHeartbeatClosed() {
 		close(c.stopHeartbeatC)
 	}
 }
